@@ -12,7 +12,7 @@ EXPLANATION = ('llsym in real-algebraic mode runs the real dense Cholesky (mju_c
                'mju_bandMulMatVec), mju_solve3 and the sparse products/conversions (mju_mulMatVecSparse, mju_mulMatTVecSparse, mju_sparse2dense, mju_dense2sparse, mju_transposeSparse) '
                'with fully symbolic matrix/vector entries; z3 (NRA) proves for ALL values: L L^T = A and rank = n for SPD input, A solve(b) = b, band<->dense are mutually inverse on the band '
                'pattern for every (ntotal, nband, ndense) within the bound, band and sparse products equal the dense definition (also for empty rows and uncompressed layouts).')
-BOUNDS = {'quick': {'cholesky n': '<=2 (factor), <=3 (solve)', 'band': 'ntotal<=4, all nband, ndense', 'sparse': 'nr<=2, nc<=3, 5 patterns'}, 'thorough': {'cholesky n': '<=3', 'band': 'ntotal<=5', 'sparse': 'nr<=3'}}
+BOUNDS = {'quick': {'cholesky n': '<=3', 'band': 'ntotal<=5, all nband, ndense', 'sparse': 'nr<=2, nc<=3, 5 patterns', 'sparse vectors': 'n<=5, capacity<=3'}, 'thorough': {'band': 'ntotal<=6', 'sparse': 'nr<=3', 'sparse vectors': 'n<=6'}}
 OUTSIDE = 'mju_eig3, mju_boxQP, mju_QCQP* (iterative), sparse Cholesky/LU, AVX code paths, floating-point conditioning.'
 ASSUMPTIONS = ['real-number semantics', 'SPD input for the Cholesky round trip (leading minors > 0, mindiag below the pivots)']
 BUDGET = {'quick': 600, 'thorough': 2400}
@@ -242,9 +242,10 @@ def unit_sparsevec(tier, n, cap):
 
 def units(tier):
     u = [('chol_n1', 'unit_chol', {'n': 1}), ('chol_n2', 'unit_chol', {'n': 2}), ('solve3', 'unit_solve3', {})]
-    for nt in ([2, 3, 4] if tier == 'quick' else [2, 3, 4, 5]): u.append(('band_n%d' % nt, 'unit_band', {'ntotal': nt}))
+    for nt in ([2, 3, 4, 5] if tier == 'quick' else [2, 3, 4, 5, 6]): u.append(('band_n%d' % nt, 'unit_band', {'ntotal': nt}))
     for p in PATTERNS: u.append(('sparse_' + p, 'unit_sparse', {'pat': p}))
     u.append(('sparsevec_n4_cap2', 'unit_sparsevec', {'n': 4, 'cap': 2}))
-    if tier == 'thorough': u.append(('sparsevec_n5_cap3', 'unit_sparsevec', {'n': 5, 'cap': 3}))
-    if tier == 'thorough': u.append(('chol_n3', 'unit_chol', {'n': 3}, 2000))
+    u.append(('sparsevec_n5_cap3', 'unit_sparsevec', {'n': 5, 'cap': 3}))
+    u.append(('chol_n3', 'unit_chol', {'n': 3}, 2000))
+    if tier == 'thorough': u.append(('sparsevec_n6_cap3', 'unit_sparsevec', {'n': 6, 'cap': 3}))
     return u
